@@ -334,3 +334,8 @@ def run(ck, F, prefix='C11'):
     only_node = all('rb_tree::container<' in m and 'make_node' in m for m in makers)
     ck.check(R3, 'impl::Qualified', only_node and tab_users == {GQ},
              f'Qualified nodes are built in {sorted(makers)}; the table is used by {sorted(tab_users)}', loc=f['loc'])
+    # the table of qualified types finds what it holds only as long as it stays a valid search tree (order and grouping independence
+    # rests on finding the node of the union again)
+    if prefix == 'C11':
+        import c08 as _c08
+        _c08.run(_Only(ck, {'fixup-step', 'descent', 'count-and-reuse'}), F, prefix='C11')
